@@ -13,6 +13,9 @@
 
    What the property fixes and what it leaves open:
      * next() while the previously returned future is not computed -> RuntimeError, nothing advances   [runtime]
+       "not computed" includes STARTED: the operation "start" lets the future run until the body's await blocks on a
+       batch item; next() issued then (by a sibling task, while the future is suspended) is refused all the same,
+       and what compute and the later operations deliver is unchanged
      * next() of an exhausted generator -> StopIteration, for ever                                       [stop]
      * while a Value is still ahead, next() returns a future whose value is that Value                   [fut / val]
      * when NO Value is ahead the property only says that nothing but END_OF_GENERATOR (to be ignored)
@@ -33,6 +36,7 @@ MaxLenG == EnvInt("MAXLENG", 3)    \* bodies with one nested generator: length <
 MaxK    == EnvInt("MAXK", 2)       \* Values of the nested generator: 0..MaxK
 TakeMax == EnvInt("TAKEMAX", 6)    \* take_first(gen, n) for n in 0..TakeMax
 MaxCons == EnvInt("MAXCONS", 2)    \* consumer calls per history (take_first twice on one generator)
+Extra   == EnvInt("EXTRA", 2)      \* histories that contain "start" go on for Extra more operations (what is delivered afterwards)
 
 FlatBodies == UNION {[1..n -> {"A", "V"}] : n \in 0..MaxLen}
 (* the nested generator is never directly followed by a Value: whether an inner generator announces its
@@ -48,14 +52,20 @@ Flat(b, k) == FlattenSeq([i \in 1..Len(b) |->
                  ELSE IF b[i] = "V" THEN <<El("V", i)>>
                  ELSE FlattenSeq([m \in 1..k |-> <<El("g", 0), El("V", 10 + m)>>])])
 
-VARIABLES body, k, pos, lastc, target, lastv, stopped, tail, ncons, delivered, hist
-vars == <<body, k, pos, lastc, target, lastv, stopped, tail, ncons, delivered, hist>>
+VARIABLES body, k, pos, lastc, started, target, lastv, stopped, tail, ncons, delivered, hist
+vars == <<body, k, pos, lastc, started, target, lastv, stopped, tail, ncons, delivered, hist>>
 (* pos     = number of elements of F the body has passed (Len(F)+1: the body has returned)
    lastc   = the future last returned by next() is computed (TRUE when there is none)
+   started = that future is not computed but has STARTED: a scheduler began to run it and it is suspended in the
+             body's await, which blocks on a batch item (in the histories that use "start" every A awaits a batch
+             item); sibling tasks run meanwhile.  "Not computed" covers both not started and started.
    target  = where the body will stand once that future is computed
    lastv   = what that future evaluates to
    tail    = a next() was issued with no Value ahead and its outcome has not been resolved by compute
    delivered = payloads handed to the caller so far *)
+
+HasStart == \E i \in 1..Len(hist) : hist[i].op = "start"
+Bound == IF HasStart THEN Depth + Extra ELSE Depth
 
 F == Flat(body, k)
 L == Len(F)
@@ -76,14 +86,14 @@ Rec(op, n, res) == [op |-> op, n |-> n, res |-> res]
 
 Init == /\ \/ body \in FlatBodies /\ k = 0
            \/ body \in NestedBodies /\ k \in 0..MaxK
-        /\ pos = 0 /\ lastc = TRUE /\ target = 0 /\ lastv = NoFut
+        /\ pos = 0 /\ lastc = TRUE /\ started = FALSE /\ target = 0 /\ lastv = NoFut
         /\ stopped = FALSE /\ tail = FALSE /\ ncons = 0 /\ delivered = <<>> /\ hist = <<>>
 
 Same(xs) == UNCHANGED xs
 
 OpNext ==
-  /\ Len(hist) < Depth
-  /\ UNCHANGED <<body, k, ncons>>
+  /\ Len(hist) < Bound
+  /\ UNCHANGED <<body, k, ncons, started>>
   /\ IF tail THEN
         /\ hist' = Append(hist, Rec("next", 0, Tok("tailnext")))
         /\ Same(<<pos, lastc, target, lastv, stopped, tail, delivered>>)
@@ -109,9 +119,10 @@ OpNext ==
         /\ Same(<<pos, lastc, target, lastv, stopped, delivered>>)
 
 OpCompute ==      \* .value() of the future last returned by next()
-  /\ Len(hist) < Depth
+  /\ Len(hist) < Bound
   /\ lastv # NoFut \/ tail
   /\ UNCHANGED <<body, k, ncons>>
+  /\ started' = FALSE
   /\ IF tail THEN
         /\ hist' = Append(hist, Rec("compute", 0, Tok("tailend")))
         /\ pos' = L + 1 /\ stopped' = TRUE /\ tail' = FALSE /\ lastc' = TRUE /\ lastv' = Tok("any")
@@ -126,9 +137,10 @@ OpCompute ==      \* .value() of the future last returned by next()
 
 (* consumers: op = "list" takes everything, op = "take" the first n *)
 Consume(op, n) ==
-  /\ Len(hist) < Depth /\ ncons < MaxCons
+  /\ Len(hist) < Bound /\ ncons < MaxCons
+  /\ ~started            \* while the future is suspended only siblings run: they call next(); compute lets it finish
   /\ ncons' = ncons + 1
-  /\ UNCHANGED <<body, k, target, lastv, lastc>>
+  /\ UNCHANGED <<body, k, target, lastv, lastc, started>>
   /\ IF op = "take" /\ n = 0 THEN          \* nothing is needed: nothing advances, whatever the state
         /\ hist' = Append(hist, Rec(op, n, R("lst", <<>>, IF tail THEN Cnt(L + 1) ELSE Cnt(pos))))
         /\ Same(<<pos, stopped, tail, delivered>>)
@@ -148,7 +160,18 @@ Consume(op, n) ==
              /\ pos' = L + 1 /\ stopped' = TRUE /\ delivered' = delivered \o vs
              /\ Same(<<tail>>)
 
-Next == OpNext \/ OpCompute \/ Consume("list", 0) \/ \E n \in 0..TakeMax : Consume("take", n)
+(* the future returned last begins to run (its awaiter yields it together with a sibling task): it gets as far as the
+   body's pending await, which blocks on a batch item, and stays suspended there until compute.  Nothing observable
+   changes; what matters is that next() issued by the sibling in this state is still "before the previously returned
+   task is computed". *)
+OpStart ==
+  /\ Len(hist) < Depth
+  /\ ~lastc /\ ~started /\ ~tail /\ F[pos].e = "A"
+  /\ started' = TRUE
+  /\ hist' = Append(hist, Rec("start", 0, Tok("ok")))
+  /\ UNCHANGED <<body, k, pos, lastc, target, lastv, stopped, tail, ncons, delivered>>
+
+Next == OpNext \/ OpStart \/ OpCompute \/ Consume("list", 0) \/ \E n \in 0..TakeMax : Consume("take", n)
 Spec == Init /\ [][Next]_vars
 
 (* ---- the property, on the model ---- *)
@@ -163,9 +186,10 @@ TakeNoMore ==      \* take_first(n) hands out at most n Values and leaves the bo
            \/ pos' <= L /\ IsV(pos') /\ Len(delivered') - Len(delivered) = Last(hist').n
            \/ pos' = L + 1 /\ Len(delivered') - Len(delivered) < Last(hist').n]_vars
 StopForEver == [][stopped => stopped' /\ (Stepped /\ Last(hist').op = "next" => Last(hist').res.k = "stop")]_vars
+StartedIsUncomputed == started => ~lastc /\ ~tail /\ ~stopped
 EarlyAdvance ==    \* advancing before the previous future is computed raises RuntimeError and moves nothing
-  [][~lastc /\ Stepped /\ Last(hist').op # "compute" /\ ~(Last(hist').op = "take" /\ Last(hist').n = 0) =>
+  [][~lastc /\ Stepped /\ Last(hist').op \notin {"compute", "start"} /\ ~(Last(hist').op = "take" /\ Last(hist').n = 0) =>
         Last(hist').res.k = "runtime" /\ pos' = pos /\ delivered' = delivered]_vars
 
-Export == (Len(hist) = Depth) => PrintT(ToJson([body |-> body, k |-> k, h |-> hist]))
+Export == (Len(hist) = Bound) => PrintT(ToJson([body |-> body, k |-> k, h |-> hist]))
 =============================================================================
